@@ -1080,7 +1080,26 @@ def _run_impl(case, root):
         raised = None
         try:
             if spec['mode'] == 'run':
-                _finish.finish(tm_env, cdir)
+                # through the real RuntimeBase.finish (the caller of `_finish`): it removes the container directory -
+                # and with it the saved state a repeated finish needs - only after `_finish` returned
+                import types as _types
+                from treadmill.runtime import runtime_base as _rb
+                removed_ = []
+                real_rmtree_ = _rb.shutil.rmtree
+                stub_ = _types.SimpleNamespace(_service=_types.SimpleNamespace(directory=cdir),
+                                               _finish=lambda: _finish.finish(tm_env, cdir))
+                with mock.patch.object(_rb.supervisor, 'ensure_not_supervised', lambda _d: None), \
+                        mock.patch.object(_rb.shutil, 'rmtree',
+                                          lambda d_, *a_, **k_: removed_.append(d_) if d_ == cdir
+                                          else real_rmtree_(d_, *a_, **k_)):
+                    try:
+                        _rb.RuntimeBase.finish(stub_)
+                    except BaseException:
+                        if removed_:
+                            hits.append(fw.Hit(clause='state-removed-by-failed-finish', call_site='RuntimeBase.finish',
+                                               detail='%s: the finish raised, yet the container directory (state.json, '
+                                                      'resources/) was removed: the finish cannot be repeated' % (uniq,)))
+                        raise
             elif man is not None:
                 # what `_cleanup` does for the network part
                 app = utils.to_obj(man)
